@@ -207,6 +207,8 @@ def fxaStep (st : FxAState) (tok : List String) : Option (FxAState × String) :=
       pure ({ st with fx := fxInit st.fx sr ibs }, "ok")
   | ["sr", sr] => do let sr ← nat? sr; pure ({ st with fx := fxChangeSr st.fx sr }, "ok")
   | ["start"] => some ({ st with fx := fxStart st.fx }, "ok")
+  -- an oracle-only op (tween timing across block sizes, checked on the real code): nothing to mirror
+  | "twchk" :: _ => some (st, "ok")
   | ["set", p, v, tw] => (fxSet st.fx p v tw).map (fun fx => ({ st with fx := fx }, "ok"))
   | ["mode", m] => (fxMode st.fx m).map (fun fx => ({ st with fx := fx }, "ok"))
   | "proc" :: dt :: part :: frames => do
